@@ -12,10 +12,11 @@ import re
 from common import *
 
 IMPORTS = "Pg.Model Pg.Conc"
-ACTORS = [1, 2, 3, 4, 101, 102]
+ACTORS = [1, 2, 3, 4, 5, 101, 102]   # 5 = thread-local actor (member only), 101/102 remote ids
+MONITORS = [1, 2, 3, 4, 101, 102]
 SCOPES = [1, 2, 3]
 GROUPS = [1, 2, 3]
-UNIVERSE = "(mkU [1; 2; 3] [1; 2; 3] [1; 2; 3; 4; 101; 102])"
+UNIVERSE = "(mkU [1; 2; 3] [1; 2; 3] [1; 2; 3; 4; 5; 101; 102])"
 
 
 # ---------------------------------------------------------------- scenario syntax
@@ -76,7 +77,8 @@ def gen_exhaustive(depth):
     group monitor, a scope monitor, an all-scopes monitor, duplicate actors, a repeated join,
     a leave of a non-member, and the exits of a member and of a monitor."""
     alpha = [("j", 1, 1, [1]), ("j", 1, 1, [1, 2, 1]), ("j", 2, 1, [1]), ("l", 1, 1, [1]), ("l", 1, 1, [2, 3]),
-             ("m", 1, 3), ("ms", 1, 3), ("ms", 0, 3), ("d", 1, 3), ("ds", 1, 3), ("x", 1), ("k", 3)]
+             ("m", 1, 3), ("ms", 1, 3), ("ms", 0, 3), ("d", 1, 3), ("ds", 1, 3), ("x", 1), ("k", 3),
+             ("j", 1, 1, [5]), ("x", 5)]
     return [list(seq) for seq in itertools.product(alpha, repeat=depth)]
 
 
@@ -85,7 +87,8 @@ def gen_random(rng, n):
     for _ in range(n):
         style = rng.choice(["mixed", "mixed", "monitored", "churn", "exits", "narrow"])
         L = rng.choice([6, 10, 14, 20, 28])
-        actors = ACTORS if style != "narrow" else [1, 2, 101]
+        actors = ACTORS if style != "narrow" else [1, 2, 5, 101]
+        mons = [a for a in actors if a in MONITORS]
         scopes = SCOPES if style != "narrow" else [1, 2]
         groups = GROUPS if style != "narrow" else [1, 2]
         ops = []
@@ -104,11 +107,11 @@ def gen_random(rng, n):
             for _ in range(rng.choice([2, 3, 4])):
                 r = rng.random()
                 if r < 0.5:
-                    ops.append(("m", rng.choice(groups), rng.choice(actors)))
+                    ops.append(("m", rng.choice(groups), rng.choice(mons)))
                 elif r < 0.85:
-                    ops.append(("ms", rng.choice(scopes), rng.choice(actors)))
+                    ops.append(("ms", rng.choice(scopes), rng.choice(mons)))
                 else:
-                    ops.append(("ms", 0, rng.choice(actors)))
+                    ops.append(("ms", 0, rng.choice(mons)))
         while len(ops) < L:
             r = rng.random()
             s, g = rng.choice(scopes), rng.choice(groups)
@@ -121,13 +124,13 @@ def gen_random(rng, n):
             elif r < 0.48:
                 ops.append(("l", s, g, some_actors()))
             elif r < 0.58:
-                ops.append(("m", g, rng.choice(actors)))
+                ops.append(("m", g, rng.choice(mons)))
             elif r < 0.68:
-                ops.append(("ms", rng.choice(scopes + [0]), rng.choice(actors)))
+                ops.append(("ms", rng.choice(scopes + [0]), rng.choice(mons)))
             elif r < 0.74:
-                ops.append(("d", g, rng.choice(actors)))
+                ops.append(("d", g, rng.choice(mons)))
             elif r < 0.80:
-                ops.append(("ds", rng.choice(scopes + [0]), rng.choice(actors)))
+                ops.append(("ds", rng.choice(scopes + [0]), rng.choice(mons)))
             else:
                 p = 0.9 if style == "exits" else 0.45
                 if rng.random() < p:
@@ -140,7 +143,8 @@ def gen_random(rng, n):
         for a in list(dead)[:2]:
             if rng.random() < 0.7:
                 ops.append(rng.choice([("j", rng.choice(scopes), rng.choice(groups), [a, rng.choice(actors)]),
-                                       ("m", rng.choice(groups), a), ("ms", rng.choice(scopes + [0]), a)]))
+                                       ("m", rng.choice(groups), a if a in MONITORS else 1),
+                                       ("ms", rng.choice(scopes + [0]), a if a in MONITORS else 1)]))
         out.append(ops)
     return out
 
@@ -226,6 +230,37 @@ RACES = [
      "[CMon 1 1; CJoin 2 1 [1; 2]]", [("j", 1, 1, [1]), ("m", 2, 1), ("ms", 0, 4)],
      [rep("LX 1", 1), rep("LT 0", 20), rep("LT 1", 20), rep("LX 1", 20)],
      [("x", 1), ("m", 1, 1), ("j", 2, 1, [1, 2])]),
+    # --- branches found uncovered by the coverage audit (docs/notes/C11.md, "Coverage audit")
+    ("join naming one actor that exits before its locked re-check: nothing accepted, group has a listener",
+     "race m 1 3 | start A j 1 1 1 @join.actor | start B x 1 | go A",
+     "[CJoin 1 1 [1]]", [("m", 1, 3)],
+     [rep("LT 0", 3), rep("LX 1", 30), rep("LT 0", 20)],
+     [("x", 1), ("j", 1, 1, [1])]),
+    ("same without listener: the entry created by or_default is dropped again",
+     "race  | start A j 1 2 1 @join.actor | start B x 1 | go A",
+     "[CJoin 1 2 [1]]", [],
+     [rep("LT 0", 3), rep("LX 1", 30), rep("LT 0", 20)],
+     [("x", 1), ("j", 1, 2, [1])]),
+    ("leave_scoped removes the actor while leave_all holds the taken memberships; the group keeps another member",
+     "race ms 0 4;j 1 1 1,2 | start B x 1 @leave_all.taken | start A l 1 1 1 | go B",
+     "[CLeave 1 1 [1]]", [("ms", 0, 4), ("j", 1, 1, [1, 2])],
+     [rep("LX 1", 5), rep("LT 0", 20), rep("LX 1", 30)],
+     [("l", 1, 1, [1]), ("x", 1)]),
+    ("monitor of a stopping actor: its temporary group entry is removed by a demonitor before its own clean-up",
+     "race  | start B x 1 | start A m 1 1 @monitor.released | start C d 1 3 | go A",
+     "[CMon 1 1; CDemon 1 3]", [],
+     [rep("LX 1", 30), rep("LT 0", 2), rep("LT 1", 5), rep("LT 0", 10)],
+     [("x", 1), ("m", 1, 1), ("d", 1, 3)]),
+    ("monitor_scope of a stopping actor: its temporary world entry is removed by a demonitor_scope first",
+     "race  | start B x 1 | start A ms 2 1 @monitor_scope.released | start C ds 2 3 | go A",
+     "[CMonScope 2 1; CDemonScope 2 3]", [],
+     [rep("LX 1", 30), rep("LT 0", 2), rep("LT 1", 5), rep("LT 0", 10)],
+     [("x", 1), ("ms", 2, 1), ("ds", 2, 3)]),
+    ("explicit demonitor/demonitor_scope while demonitor_all holds the taken monitor sets: entries already gone",
+     "race m 1 1;ms 2 1 | start B x 1 @demonitor_all.taken | start A d 1 1 | start C ds 2 1 | go B",
+     "[CDemon 1 1; CDemonScope 2 1]", [("m", 1, 1), ("ms", 2, 1)],
+     [rep("LX 1", 2), rep("LT 0", 5), rep("LT 1", 5), rep("LX 1", 30)],
+     [("x", 1), ("d", 1, 1), ("ds", 2, 1)]),
     # --- explicit leave / demonitor overlapping a registration of the same actor, then the actor's REAL exit.
     # The pinned code removes the reverse-index record of a membership under the group's forward entry
     # (model: one LL step does both) and never removes the relations record of a live actor.
@@ -438,13 +473,13 @@ def run(chk):
         run_races(chk, build, 1, only=[l.strip() for l in open(chk.replay).read().split("\n") if l.startswith("race ")])
     chk.coverage["traces_validated_against_impl"] = n
     chk.coverage["distinct_nontrivial"] = len(distinct)
-    chk.coverage["rule"] = ("exhaustive: all op sequences of length %d over a 12-letter alphabet (joins with duplicates, "
+    chk.coverage["rule"] = ("exhaustive: all op sequences of length %d over a 14-letter alphabet (joins with duplicates, "
                             "repeats, leaves of non-members, group/scope/all-scopes monitors, stop and kill); random: seeded "
                             "histories of 6-30 ops over 3 scopes x 3 groups x 6 actors (2 with remote ids), with exits and "
                             "registrations naming exited actors. View after EVERY op: all query functions, the four indexes "
                             "(cfg hook), each actor's ProcessGroupChanged log. non-trivial = at least one notification "
                             "delivered and at least one leave/exit" % (2 if quick else 3))
-    chk.coverage["exhaustive_part"] = "op sequences of length %d over the 12-letter alphabet" % (2 if quick else 3)
+    chk.coverage["exhaustive_part"] = "op sequences of length %d over the 14-letter alphabet" % (2 if quick else 3)
     return chk.finish(trusted_base=TRUSTED)
 
 
